@@ -398,6 +398,16 @@ def gen(rng: random.Random, h5rec: Dict[str, Any], stage: int, job: Dict[str, An
                 if a["q"][: len(a["p"])] == a["p"]:
                     a["op"], a["q"] = "delete", []
             return a
+    ghosts = [g for g in job.get("_ghosts", ()) if not any(n["p"] == g for n in tree)
+              and not any(n["k"] == "d" and g[: len(n["p"])] == n["p"] for n in tree if n["p"])]
+    if ghosts and rng.random() < job.get("resurrect_annotated", 0.1):
+        # a fresh node at a path where an annotated node used to be (deleted, or moved away with its group) in this session
+        g = rng.choice(ghosts)
+        if rng.random() < 0.7:
+            a.update(op="set_dataset", p=g, v=rng.choice(["v1", "v2"]), how=rng.choice(["setitem", "create_dataset"]))
+        else:
+            a.update(op="create_group", p=g)
+        return a
     e = h5lib.gen_op(rng, tree, depth=job.get("depth", 3), values=["v1", "v2", "v3", "v8"],
                      weights=job.get("data_weights") or {"copy": 3.5, "move": 3, "delete": 3, "set_attr": 1.5, "del_attr": 0.7},
                      allow_copy_into_self=False, attr_keys=job.get("attr_keys"))
@@ -437,6 +447,7 @@ def run_history(job: Dict[str, Any], emit, scratch: Path, tk: h5lib.Tokens, env:
                                               "d": [dict(observe(d, km, tk, rng, snap, originals, 0), ok=True, exc="") for d in drvs]}})
         h5rec = None
         step = 0
+        ghosts_seen: List[List[str]] = []
         n = job.get("nops", 14)
         prev = None
         while step < n:
@@ -470,6 +481,11 @@ def run_history(job: Dict[str, Any], emit, scratch: Path, tk: h5lib.Tokens, env:
                 break
             if prev is None:
                 prev = observe(drvs[0], km, tk, rng, snap, originals, 0)
+            # paths that carried metadata at some point of the history (candidates for re-creation once they are gone)
+            for m_ in prev["meta"]:
+                if m_["node"] and m_["node"] not in ghosts_seen:
+                    ghosts_seen.append(m_["node"])
+            job["_ghosts"] = ghosts_seen
             a = gen(rng, prev, env.stage, job)
             ro_failed = None
             if a["op"] != "pack" and rng.random() < job.get("p_ro", 0.07):
